@@ -3,6 +3,6 @@ NEXT Next
 CONSTANTS
   Keys = {1, 2}
   MaxLen = 5
-  MaxLenD = 3
+  MaxLenD = 2
   DKeys = {"k1", "k2", "k3"}
   MaxStack = 3
